@@ -143,7 +143,7 @@ def handle_violations(pool, prop, part, agg, known, report):
         n_new += 1
         report['new'] += len(insts)
         cfg, item, res, v = min(insts, key=lambda t: len((t[2].get('program') or {}).get('ops') or []) or 10 ** 6)
-        program = res.get('program')
+        program = res.get('program') or item.get('program')
         if program is None:
             # crash: the child could not return its program; regenerate from the seed
             mod = importlib.import_module('zisim.machines.' + part.machine)
@@ -195,6 +195,16 @@ def check(prop_id, tier):
                 agg = engine.run_seeds(pool, part.machine, part.mode, plan, batch=part.batch,
                                        deadline=time.monotonic() + budget * 3, timeout=part.timeout,
                                        want_sample_every=max(1, (n // part.batch) // 3))
+            elif part.kind == 'enum':
+                mod = importlib.import_module('zisim.machines.' + part.machine)
+                programs = mod.enum_programs(part.mode)
+                agg = engine.run_enum(pool, part.machine, part.mode, part.configs, programs, timeout=part.timeout,
+                                      deadline=time.monotonic() + budget * 3)
+                extra_cov.setdefault('enumerated_blocks', 0)
+                extra_cov['enumerated_blocks'] += len(programs) * len(part.configs)
+                extra_cov['enumerated_cases_per_configuration'] = sum(len(p['ops']) for p in programs)
+                if not agg.skipped and not agg.harness_errors and not agg.timeouts:
+                    extra_cov['exhaustive_subspace'] = mod.ENUM_NOTE
             else:
                 from . import diffcheck
                 agg = diffcheck.run_part(pool, prop, part, verif_seed, n, budget, extra_cov)
